@@ -417,6 +417,22 @@ def shape_cases(ft, rng):
         out.append((good, bad))
         out.append((bad, good))
         out.append((bad, bad))
+    if ft == "dtd":
+        # multi-line values and pre-comments x XML defects: expat reports errors by LINE of the wrapper
+        # document (value inside <elem>, then the whole declaration inside the DOCTYPE), so the number of
+        # lines of the value, of its tail and of the attached comment all matter
+        good = b'<!ENTITY title "Open &brandShortName;">\n<!ENTITY k1 "value">\n'
+        defects = [b"", b"<b>bold", b"<b>", b"</b>", b"<b><i>x</b>", b"<b attr>x</b>", b"&amp", b"&", b"&unterminated",
+                   b"%", b"%foo;", b"% x", b"50%", b"<", b"]]>", b"<!--", b"<?", b"&#;", b"&#xZ;", b"&#0;"]
+        comments = [b"", b"<!-- one line -->\n", b"<!-- a\n     b\n     c -->\n",
+                    b"<!-- LOCALIZATION NOTE (title):\n     l2\n     l3\n     l4\n     l5 -->\n"]
+        for c in comments:
+            for before in (b"", b"first\n", b"first\nsecond\n"):
+                for d in defects:
+                    for tail in (b"", b"\n", b"\n\n", b" end\n"):
+                        for q in (b'"', b"'") if d in (b"<b>bold", b"%") else (b'"',):
+                            bad = c + b"<!ENTITY title " + q + before + d + tail + q + b">\n<!ENTITY k1 \"value\">\n"
+                            three(good, bad)
     if ft == "android":
         # the XML declaration: encodings known / unknown / multi-byte to pyexpat, malformed declarations,
         # every single-character edit of the usual one; and the file really encoded otherwise
